@@ -175,6 +175,8 @@ EDGE_USES = HUGE_USES + [".rad50 <hh><47>", ".rad50 <hh>/99/", ".rad50 /9/<hh>/9
                          ".dword hh, hh", "cmp #hh, #hh", "mov hh(r1), hh(r2)", "xfc hh", "sys hh", "ash #hh, r0", "sob r1, . - hh", "br . + hh", "br . - hh", "jmp hh(pc)", ".odd\n.byte hh\n.even",
                          "make_wav \"t.wav\", \"n\"<hh>", ".word 'a + hh", ".word ^C<hh>", ".word hh _ -hh", ".word hh % hh", ".word hh / hh"]
 EDGE_BIG_WORK = 70000
+# (n) exporting, defining and using one name in every order over one and two files (an export may come without, or before, its definition)
+EXTERN_EVENTS = [".extern g", ".extern all", "g: nop", "g = 5", "g:: nop", "g == 5", ".word g", "br g", ".blkb g & 3", ".even", "mov #g, r0"]
 # uses whose work is proportional to the value: only with the moderate values (resource guard, see ASSUMPTIONS)
 HUGE_SIZE_USES = {".blkb hh", ".blkw hh", ".repeat hh { nop }", ". = . + hh", ". = hh", ".link 1000\nnop\n. = hh"}
 
@@ -224,6 +226,8 @@ def cases(tier):
         yield {"k": "huge", "h": h}
     for e in range(len(EDGE)):
         yield {"k": "edge", "e": e}
+    for first in range(len(EXTERN_EVENTS)):
+        yield {"k": "externs", "first": first}
 
 
 class _Sink(io.TextIOBase):
@@ -621,6 +625,20 @@ def check(case, r, tier):
                 # written as a literal, through a symbol defined above, through a symbol defined below
                 text = (use.replace("hh", "<%s>" % lit) if form == 0 else ("hh = %s\n" % lit + use if form == 1 else use + "\nhh = %s" % lit)) + "\n"
                 judge(text, r, text, False, tree=TREE)
+        return
+    if k == "externs":
+        ev = EXTERN_EVENTS
+        f = ev[case["first"]]
+        one = [[f]] + [[f, a] for a in ev] + [[f, a, b] for a in ev for b in ev]
+        for seq in one:
+            text = ".link 1000\n" + "\n".join(seq) + "\n"
+            judge(text, r, text, False)
+        short = [[]] + [[a] for a in ev] + [[a, b] for a in ev for b in ev]
+        for s1 in ([f], ) + tuple([f, a] for a in ev):
+            for s2 in short[1:]:
+                for link in (0, 1):
+                    files = [("p1.mac", (".link 1000\n" if link == 0 else "") + "\n".join(s1) + "\n"), ("p2.mac", "\n".join(s2) + "\n" + (".link 1000\n" if link else ""))]
+                    judge(None, r, (tuple(s1), tuple(s2), link), False, files=files)
         return
     if k == "faults":
         for e in faults.E:
